@@ -366,6 +366,12 @@ def Noc.ofSizes (half : Array (Rat × Rat)) : Noc :=
 
 def rmax (a b : Rat) : Rat := if a < b then b else a
 
+/-- robustness margin of a conjunction of comparisons, each given as (holds, |difference|): when all hold, the
+    smallest margin; when some fail, the largest margin among the failing ones (one clear failure decides) -/
+def conjMargin (l : List (Bool × Rat)) : Rat :=
+  if l.all (·.1) then l.foldl (fun m p => Vpsc.rmin m p.2) Vpsc.BIG
+  else l.foldl (fun m p => if p.1 then m else rmax m p.2) 0
+
 /-- `computeOverlapForShapePairInfo`: overlapMax and the margin of its discrete decisions; `ex`/`ey` = the x / y
     positions of both shapes are still the exact dyadic inputs (their comparisons are exact in doubles too) -/
 def overlapOf (half : Array (Rat × Rat)) (fx fy : Array Rat) (p : PairInfo) (ex ey : Bool := false) : Rat × Rat :=
@@ -377,22 +383,23 @@ def overlapOf (half : Array (Rat × Rat)) (fx fy : Array Rat) (p : PairInfo) (ex
   let bottom2 := fy[p.v2]! - h2.2; let top2 := fy[p.v2]! + h2.2
   let spaceR := left2 - right1; let spaceL := left1 - right2
   let spaceA := bottom2 - top1; let spaceB := bottom1 - top2
-  let mx0 := if ex then Vpsc.BIG else Vpsc.rmin (Vpsc.rabs spaceR) (Vpsc.rabs spaceL)
-  let my0 := if ey then Vpsc.BIG else Vpsc.rmin (Vpsc.rabs spaceA) (Vpsc.rabs spaceB)
-  let m0 := Vpsc.rmin mx0 my0
+  let mg (exact : Bool) (d : Rat) : Rat := if exact then Vpsc.BIG else Vpsc.rabs d
   let xOverlap := decide (spaceR < 0) && decide (spaceL < 0)
   let yOverlap := decide (spaceB < 0) && decide (spaceA < 0)
+  let m0 := conjMargin [(decide (spaceR < 0), mg ex spaceR), (decide (spaceL < 0), mg ex spaceL),
+                        (decide (spaceB < 0), mg ey spaceB), (decide (spaceA < 0), mg ey spaceA)]
   if !(xOverlap && yOverlap) then (0, m0)
   else
     let ov := rmax (rmax (rmax (-spaceL) (-spaceR)) (-spaceB)) (-spaceA)
-    let mx1 := if ex then Vpsc.BIG else Vpsc.rmin (Vpsc.rabs (left1 - left2)) (Vpsc.rabs (right1 - right2))
-    let my1 := if ey then Vpsc.BIG else Vpsc.rmin (Vpsc.rabs (bottom1 - bottom2)) (Vpsc.rabs (top1 - top2))
-    let m := Vpsc.rmin m0 (Vpsc.rmin mx1 my1)
-    if left1 ≥ left2 ∧ right1 ≤ right2 ∧ bottom1 ≥ bottom2 ∧ top1 ≤ top2 then
-      (100000 + (right1 - left1) * (top1 - bottom1), m)
-    else if left2 ≥ left1 ∧ right2 ≤ right1 ∧ bottom2 ≥ bottom1 ∧ top2 ≤ top1 then
-      (100000 + (right2 - left2) * (top2 - bottom2), m)
-    else (ov, m)
+    let in12 := [(decide (left1 ≥ left2), mg ex (left1 - left2)), (decide (right1 ≤ right2), mg ex (right1 - right2)),
+                 (decide (bottom1 ≥ bottom2), mg ey (bottom1 - bottom2)), (decide (top1 ≤ top2), mg ey (top1 - top2))]
+    let in21 := [(decide (left2 ≥ left1), mg ex (left1 - left2)), (decide (right2 ≤ right1), mg ex (right1 - right2)),
+                 (decide (bottom2 ≥ bottom1), mg ey (bottom1 - bottom2)), (decide (top2 ≤ top1), mg ey (top1 - top2))]
+    if in12.all (·.1) then
+      (100000 + (right1 - left1) * (top1 - bottom1), Vpsc.rmin m0 (conjMargin in12))
+    else if in21.all (·.1) then
+      (100000 + (right2 - left2) * (top2 - bottom2), Vpsc.rmin m0 (Vpsc.rmin (conjMargin in12) (conjMargin in21)))
+    else (ov, Vpsc.rmin m0 (Vpsc.rmin (conjMargin in12) (conjMargin in21)))
 
 /-- smallest gap between the sort keys of neighbours in a sorted pair list (unprocessed part) -/
 def keyGaps : List PairInfo → Rat
